@@ -74,6 +74,9 @@ def encodeRune (r : Nat) : List UInt8 :=
     [UInt8.ofNat (v / 262144 % 8 + 240), UInt8.ofNat (v / 4096 % 64 + 128),
      UInt8.ofNat (v / 64 % 64 + 128), UInt8.ofNat (v % 64 + 128)]
 
+/-- UTF-8 of a character sequence -/
+def encodeChars (cs : List Char) : List UInt8 := cs.flatMap fun c => encodeRune c.toNat
+
 /-- runes of `s` in order, as `for _, r := range s` yields them (fuel: one rune takes at least one byte) -/
 def runesAux : Nat → List UInt8 → List Nat
   | 0, _ => []
